@@ -18,8 +18,20 @@
                                             characters, blank, tab, newline and < > | & ; ( )
      sourced is_eups fwd old new env'       env' is the result of sourcing the emitted text
      in_claim                               the five hypotheses of emit_sound, bundled
-     forget forced caller                   Eups.oldEnviron under --force *)
-From Eupsv Require Import Base.Base Base.BaseLemmas Model.Shell Proofs.ShellLib Proofs.Shell.
+     forget forced caller                   Eups.oldEnviron under --force
+   (definitions in Model/ShellSession.v):
+     front_end nv quiet cmds                (standard output, listing added to standard error) of
+                                            setupcmd.EupsSetup.execute run with nv flags -v
+     cli_stdout nv quiet cmds               its first component: what the shell wrapper sources
+     api_session cur calls                  eups.setup / eups.unsetup called one after the other by
+                                            one process without an Eups of the caller's: for each call
+                                            the environment at the call and the text of its commands
+     steps_sound cur steps calls            (Proofs/ShellSession.v) every step starts from the
+                                            environment the previous call left, and its text sourced
+                                            from there gives what the call computed
+     sh_chain texts e                       one shell sourcing the texts in turn *)
+From Eupsv Require Import Base.Base Base.BaseLemmas Model.Shell Model.ShellSession Proofs.ShellLib Proofs.Shell
+  Proofs.ShellSession.
 
 (* the core lemma: the emitter's quoting of a value is read back by the shell as exactly
    that value, one word *)
@@ -108,6 +120,73 @@ Theorem aliases_follow_environment is_eups fwd old new al oldal :
     emit Sh is_eups fwd old new al oldal = Ok (envcmds ++ a).
 Proof. exact (emit_aliases_after is_eups fwd old new al oldal). Qed.
 Print Assumptions aliases_follow_environment.
+
+(* ---- the command-line front end, at every verbosity ---- *)
+
+(* what EupsSetup.execute writes to standard output is the rendered command list whatever the
+   number of -v flags and whether or not -q is given *)
+Theorem cli_stdout_any_verbosity nv quiet cmds : cli_stdout nv quiet cmds = render cmds.
+Proof. exact (cli_stdout_render nv quiet cmds). Qed.
+Print Assumptions cli_stdout_any_verbosity.
+
+(* the listing of the commands goes to standard error, and only above verbosity 3 *)
+Theorem cli_listing_on_stderr nv quiet cmds :
+  snd (front_end nv quiet cmds) = if 3 <? effective_verbose nv quiet then Some (listing cmds) else None.
+Proof. exact (front_end_listing nv quiet cmds). Qed.
+Print Assumptions cli_listing_on_stderr.
+
+(* emit_sound for the standard output of the command, for all nv and quiet *)
+Theorem cli_sound nv quiet is_eups fwd old new :
+  valid_names old = true -> valid_names new = true -> nodup_keys (akeys new) = true ->
+  claim_env old new = true -> gone_ok is_eups fwd old new = true ->
+  exists cmds env',
+    emit Sh is_eups fwd old new [] [] = Ok cmds /\
+    sh_source (cli_stdout nv quiet cmds) old = Ok env' /\
+    env_equiv env' (protect is_eups old (new_after is_eups fwd new)).
+Proof. exact (emit_sound_lemma is_eups fwd old new). Qed.
+Print Assumptions cli_sound.
+
+(* ---- several calls of the python interface in one process ---- *)
+
+(* every call's text, sourced by a shell that starts from the environment the process has at that
+   call (which is the environment the previous call left), yields what that call computed; a
+   failed call changes nothing *)
+Theorem api_session_sound cur calls :
+  session_in_claim cur calls = true ->
+  exists steps, api_session cur calls = Ok steps /\ steps_sound cur steps calls.
+Proof. exact (api_session_sound_lemma calls cur). Qed.
+Print Assumptions api_session_sound.
+
+(* one shell that sources the texts of all the calls in turn ends with the environment the process
+   ends with, provided no call fails or removes a variable that the code refuses to unset *)
+Theorem api_session_chained cur calls :
+  session_in_claim cur calls = true -> session_keeps cur calls = true ->
+  exists steps env',
+    api_session cur calls = Ok steps /\
+    sh_chain (map snd steps) cur = Ok env' /\
+    env_equiv env' (session_final cur calls).
+Proof. intros H K. exact (api_session_chained_lemma calls cur cur H K (fun k => eq_refl)). Qed.
+Print Assumptions api_session_chained.
+
+(* the refreshed baseline is what this rests on: with one snapshot of the environment kept for the
+   whole session (stale_session, not the code) setup followed by unsetup emits no unset for the
+   variables the first call defined, and the shell keeps them *)
+Definition ex_s_start : env := [(lit "HOME", lit "/root"); (lit "EUPS_PATH", lit "/s")].
+Definition ex_s_set : env :=
+  [(lit "HOME", lit "/root"); (lit "EUPS_PATH", lit "/s"); (lit "W_DIR", lit "/s/w (beta) 1");
+   (lit "SETUP_W", lit "w 1.0 -f Linux -Z /s"); (lit "W_PATH", lit "/s/w (beta) 1/lib")].
+Definition ex_s_unset : env := [(lit "HOME", lit "/root"); (lit "EUPS_PATH", lit "/s"); (lit "W_PATH", [])].
+Definition ex_s_calls : list apicall := [Call false true ex_s_set [] []; Call false false ex_s_unset [] []].
+
+Theorem stale_baseline_refuted :
+  session_in_claim ex_s_start ex_s_calls = true /\
+  exists t1 t2 env',
+    stale_session ex_s_start ex_s_start ex_s_calls = Ok [(ex_s_start, t1); (ex_s_set, t2)] /\
+    sh_source t2 ex_s_set = Ok env' /\
+    alookup (lit "W_DIR") env' = Some (lit "/s/w (beta) 1") /\
+    alookup (lit "W_DIR") (call_shell_env ex_s_set (Call false false ex_s_unset [] [])) = None.
+Proof. split; [reflexivity|]. eexists. eexists. eexists. split; [reflexivity|]. split; [reflexivity|]. split; reflexivity. Qed.
+Print Assumptions stale_baseline_refuted.
 
 (* ---- the hypotheses are needed ---- *)
 
@@ -207,3 +286,27 @@ Example ex_zsh_alias_quirk :
   emit Zsh false true [] [(lit "A", lit "1")] [(lit "ll", lit "ls -l")] [] = Ok [lit "export A=1"; lit "export A=1"] /\
   emit Zsh false true [] [] [(lit "ll", lit "ls -l")] [] = Err Crash.
 Proof. split; reflexivity. Qed.
+
+(* a session through the python interface: setup, unsetup, and the texts of the two calls *)
+Example ex_session :
+  session_in_claim ex_s_start ex_s_calls = true /\ session_keeps ex_s_start ex_s_calls = true /\
+  api_session ex_s_start ex_s_calls =
+    Ok [(ex_s_start,
+         lit "export W_DIR='/s/w (beta) 1';" ++ [c_nl] ++ lit "export SETUP_W='w 1.0 -f Linux -Z /s';" ++ [c_nl] ++
+         lit "export W_PATH='/s/w (beta) 1/lib'" ++ [c_nl]);
+        (ex_s_set,
+         lit "export W_PATH=;" ++ [c_nl] ++ lit "unset W_DIR;" ++ [c_nl] ++ lit "unset SETUP_W" ++ [c_nl])] /\
+  sh_chain [lit "export W_DIR='/s/w (beta) 1';" ++ [c_nl] ++ lit "export SETUP_W='w 1.0 -f Linux -Z /s';" ++ [c_nl] ++
+            lit "export W_PATH='/s/w (beta) 1/lib'" ++ [c_nl];
+            lit "export W_PATH=;" ++ [c_nl] ++ lit "unset W_DIR;" ++ [c_nl] ++ lit "unset SETUP_W" ++ [c_nl]] ex_s_start =
+    Ok ex_s_unset.
+Proof. repeat split; reflexivity. Qed.
+
+(* the front end at verbosity 4: the same standard output, and the listing on standard error *)
+Example ex_front_end :
+  front_end 4 false [lit "export A=1"; lit "unset B"] =
+    (lit "export A=1;" ++ [c_nl] ++ lit "unset B" ++ [c_nl],
+     Some (lit "Issuing commands:" ++ [c_nl; c_tab] ++ lit "export A=1" ++ [c_nl; c_tab] ++ lit "unset B" ++ [c_nl])) /\
+  front_end 4 true [lit "export A=1"; lit "unset B"] = (lit "export A=1;" ++ [c_nl] ++ lit "unset B" ++ [c_nl], None) /\
+  front_end 3 false [lit "export A=1"; lit "unset B"] = (lit "export A=1;" ++ [c_nl] ++ lit "unset B" ++ [c_nl], None).
+Proof. repeat split; reflexivity. Qed.
